@@ -1,5 +1,5 @@
 """Development aid:  python3-vt -m pyvc.debug <qualified-name-substring>  -- prints every path."""
-import sys, threading
+import os, sys, threading
 sys.setrecursionlimit(20000)
 threading.stack_size(256 * 1024 * 1024)
 from . import check, verify, smt, re_model
@@ -42,7 +42,7 @@ def run(sub):
                             print('       conjunct %d: %s [%.2fs] %s' % (ci, v2.status, v2.time, str(conj)[:300].replace('\n', ' ')))
                     if '--pc' in sys.argv:
                         for t in pc:
-                            print('       pc  ', str(t)[:300])
+                            print('       pc  ', str(t)[:int(os.environ.get('PYVC_PC_WIDTH', '300'))])
 
 
 if __name__ == '__main__':
